@@ -238,6 +238,8 @@ RULES = [
      "unsafe marker of get_unchecked_mut; the bound becomes a proof obligation"),
     ("R1b", r"unsafe\s*\{\s*([\w\.]+?)\.get_unchecked\(([^()]*(?:\([^()]*\))?[^()]*)\)\s*\}(?!\s*\.)", r"&\1[\2]",
      "unsafe marker of get_unchecked; the bound becomes a proof obligation"),
+    ("R1e", r"\*\s*([\w\.]+?)\s*\.get_unchecked(?:_mut)?\(([^()]*(?:\([^()]*\))?[^()]*)\)", r"\1[\2]",
+     "`*X.get_unchecked(i)` -> `X[i]` (bound is a proof obligation)"),
     ("R1c", r"([\w\.]+?)\s*\.get_unchecked_mut\(([^()]*(?:\([^()]*\))?[^()]*)\)", r"\1[\2]",
      "get_unchecked_mut in a place expression -> checked index (bound is a proof obligation)"),
     ("R1d", r"([\w\.]+?)\s*\.get_unchecked\(([^()]*(?:\([^()]*\))?[^()]*)\)", r"\1[\2]",
@@ -349,7 +351,7 @@ def rule_raw_vec(body, counts):
         v, f, length, f2 = m.group(1), m.group(2), m.group(3), m.group(4)
         if f != f2:
             raise Inconclusive("unsupported construct: from_raw_parts mixes two fields")
-        head = body[:m.start()] + f"vx_raw_vec_len(&self.{f}, {length});"
+        head = body[:m.start()] + f"vx_raw_vec_len(&mut self.{f}, {length});"
         tail = body[m.end():]
         tail = re.sub(r"(?<![\w\.])" + re.escape(v) + r"\b", f"self.{f}", tail)
         tail, k = re.subn(r"self\." + f + r"\s*=\s*\(\s*self\." + f + r"\.as_mut_ptr\(\)\s*,\s*self\." + f
@@ -359,7 +361,19 @@ def rule_raw_vec(body, counts):
         body = head + tail
 
 
+def rule_extend_iter(body, counts):
+    """R5f: `X.extend(Y.iter());` (Extend<&T> for Vec<T: Copy>) -> index loop pushing Y[i]."""
+    pat = re.compile(r"(\w+(?:\s*\.\s*\w+)*?)\s*\.extend\(\s*(\w+(?:\s*\.\s*\w+)*?)\s*\.iter\(\)\s*\)\s*;")
+    def rep(m):
+        counts["R5f"] = counts.get("R5f", 0) + 1
+        x = re.sub(r"\s+", "", m.group(1)); y = re.sub(r"\s+", "", m.group(2))
+        return (f"{{ let mut vx_i: usize = 0; while vx_i < {y}.len() "
+                f"{{ {x}.push({y}[vx_i]); vx_i += 1; }} }}")
+    return pat.sub(rep, body)
+
+
 FUNC_RULES = [
+    ("R5f", rule_extend_iter, "X.extend(Y.iter()) -> explicit index loop pushing copies (assumes slice iteration order)"),
     ("R4", rule_raw_vec, "raw-parts encoding of a Vec field (pointer, capacity, write-back); the from_raw_parts length precondition becomes a proof obligation"),
     ("R5d/e", rule_iter_map, "iterator adapter Y.iter().map(f) in collect()/extend() -> explicit index loop (assumes slice iteration order)"),
     ("R5", rule_extend_map, "iterator adapter in Vec::extend(iter.map(f)) -> explicit push loop (assumes Extend pushes in iteration order)"),
